@@ -5,11 +5,19 @@
 # transformed tree (dry: no evidence written), the worktree removed.  Prints the checks that do not exit 0.
 # Not registered in MANIFEST.json: this tests the checks, it decides no property.
 D=$(dirname "$0"); W=/tmp/eql_robust
-TS="$*"; [ -n "$TS" ] || TS="tf_reformat tf_rename swap_ifelse tf_continue tf_else tf_noelse tf_alias tf_streamlocal tf_nestif tf_evalpos tf_yieldfrom tf_ternary tf_dictmerge tf_isinstance_or tf_compr"
+TS="$*"; [ -n "$TS" ] || TS="tf_reformat tf_rename swap_ifelse tf_continue tf_else tf_noelse tf_alias tf_streamlocal tf_nestif tf_evalpos tf_yieldfrom tf_ternary tf_dictmerge tf_isinstance_or tf_compr composed"
 for t in $TS; do
   git -C /repo worktree remove --force $W 2>/dev/null; rm -rf $W
   git -C /repo worktree add -q --detach $W HEAD || exit 2
-  /venv/bin/python $D/$t.py $W | tail -1
+  if [ "$t" = composed ]; then
+    # thirteen of the transforms one after the other on the same tree: the canonical form has to absorb their interplay as well
+    for u in tf_compr tf_ternary tf_yieldfrom tf_streamlocal tf_alias tf_nestif tf_evalpos tf_dictmerge tf_isinstance_or tf_noelse tf_continue swap_ifelse tf_rename; do
+      /venv/bin/python $D/$u.py $W > /dev/null
+    done
+    echo "thirteen transforms composed"
+  else
+    /venv/bin/python $D/$t.py $W | tail -1
+  fi
   s=$( /verif/tools/suite.sh $W 2>&1 | tail -1 )
   bad=""
   for i in $(seq -w 1 20); do
